@@ -18,6 +18,9 @@ var vfC09Extra = [][2]string{
 	{"GEOMETRYCOLLECTION(POINT(9 9),LINESTRING(0 0,1 1),POLYGON((4 4,6 4,6 6,4 6,4 4)))", "GEOMETRYCOLLECTION(POINT EMPTY,GEOMETRYCOLLECTION(POINT(5 5)))"},
 	{"LINESTRING(0 0,4 0)", "LINESTRING(5 0,9 0)"},                       // collinear, apart
 	{"POLYGON((0 0,4 0,4 4,0 4,0 0))", "POLYGON((5 0,9 0,9 4,5 4,5 0))"}, // apart
+	// MultiLineStrings with a closed member before open ones (mod-2 boundary across members)
+	{"MULTILINESTRING((0 0,4 0,4 4,0 4,0 0),(4 4,8 8))", "POINT(8 8)"},
+	{"MULTILINESTRING((0 0,1 1),(5 5,6 5,6 6,5 5),(1 1,2 0))", "MULTIPOINT(1 1,2 0)"},
 	// MultiPolygons with several members whose extreme vertices sit at different ring positions
 	{"MULTIPOLYGON(((0 0,2 0,2 2,0 2,0 0)),((4 0,6 0,6 2,4 2,4 0)),((8 0,12 -3,12 3,8 2,8 0)),((0 5,1 9,-3 7,0 5)))", "POINT(20 20)"},
 	{"MULTIPOLYGON(((0 0,1 0,1 1,0 0)),((3 3,4 3,4 4,3 3)),((6 0,7 -6,9 0,8 5,6 0)),((-5 0,-4 -1,-3 0,-4 6,-5 0)))", "LINESTRING(0 -8,1 -9)"},
@@ -79,6 +82,10 @@ var vfC09Apart = [][2]string{
 	{"POLYGON((0 0,4 0,4 4,0 4,0 0))", "MULTIPOLYGON(((10 0,14 0,14 4,10 4,10 0)),((5 5,9 5,9 9,5 9,5 5)),((-9 -9,-5 -9,-5 -5,-9 -9)))"},
 	{"MULTIPOINT(0 0,50 50,100 0)", "MULTIPOINT(10 10,52 49,90 -9,0 -20)"},
 	{"POINT(3 4)", "LINESTRING(0 0,0 10,10 10)"},
+	// the nearest segment is written "backwards" (from larger to smaller ordinates) behind a decoy
+	{"POINT(0 0)", "MULTILINESTRING((-1 10,10 -1),(8 0,3 0))"},
+	{"POINT(0 0)", "MULTILINESTRING((10 -1,-1 10),(0 8,0 3))"},
+	{"LINESTRING(0 0,0 -5)", "LINESTRING(-1 10,10 -1,12 0,8 1,3 1)"},
 	{"MULTILINESTRING((0 0,10 0),(0 20,10 20),(0 40,10 40),(0 60,10 60),(0 80,10 80))", "MULTILINESTRING((30 1,40 1),(30 21,40 21),(12 79,40 79),(30 61,40 61),(30 41,40 41))"},
 }
 
